@@ -447,6 +447,7 @@ func c14Run(c *Ctx) {
 	}
 	c14Ladders(c)
 	c14Churn(c)
+	c14Forms(c)
 	// line locality in selective mode: the verdict for a line must not depend on the lines before it.  All
 	// sequences up to length 3 (quick 2) over lines that spell the same path as a dotted key, as nested
 	// documents, under operators and arrays, through the real CLI (fresh process per sequence, one line per
@@ -560,7 +561,7 @@ func c14Churn(c *Ctx) {
 func init() {
 	register(&PropDef{
 		ID: "C14", Level: "exploration",
-		Rule:        "G (find / count / distinct / aggregate incl. nested pipelines / findAndModify / update / delete / insert / WRITE-style lines) at 0 and <=1 non-default production over the full vocabulary (<=2 on 5 slots; thorough: all) x 8 patterns of which generated field names match (none, all, first, second, third, even, odd, all but first - generation order is outer before inner) x regexp family {^(ssn|pii)$, (?i)^SSN$, substring ssn} (checked at start-up to match no operator of the vocabulary) x {plain, N+B}; for every SECRET leaf the names (non-operator keys) on its path decide: some name matches => the leaf must differ from the input, none => it must be identical; don't care: anything inside a search stage, a literal in an array holding a matching \"$field\" reference, dotted keys whose whole text and components disagree about matching, false under B; every line is redacted a second time with other contents (plain <-> e-mail-shaped, valid <-> invalid date / oid / base64) and the verdict of each leaf must not change. distinct = distinct input lines" + "; churn: per regexp one in-process history with, for EVERY gap g = 1..1 300 (thorough 5 000), g never-seen field names between two occurrences of a find and an aggregate line holding a matching and a non-matching name",
+		Rule:        "G (find / count / distinct / aggregate incl. nested pipelines / findAndModify / update / delete / insert / WRITE-style lines) at 0 and <=1 non-default production over the full vocabulary (<=2 on 5 slots; thorough: all) x 8 patterns of which generated field names match (none, all, first, second, third, even, odd, all but first - generation order is outer before inner) x regexp family {^(ssn|pii)$, (?i)^SSN$, substring ssn} (checked at start-up to match no operator of the vocabulary) x {plain, N+B}; for every SECRET leaf the names (non-operator keys) on its path decide: some name matches => the leaf must differ from the input, none => it must be identical; don't care: anything inside a search stage, a literal in an array holding a matching \"$field\" reference, dotted keys whose whole text and components disagree about matching, false under B; every line is redacted a second time with other contents (plain <-> e-mail-shaped, valid <-> invalid date / oid / base64) and the verdict of each leaf must not change. distinct = distinct input lines" + "; churn: per regexp one in-process history with, for EVERY gap g = 1..1 300 (thorough 5 000), g never-seen field names between two occurrences of a find and an aggregate line holding a matching and a non-matching name" + c14FormsRule,
 		Assumptions: []string{"'field name on the path' = object keys that are not operators, matched as whole strings (DESIGN.md 3.0 item 6)", "the label table of G is the trusted base"},
 		Run:         c14Run,
 	})
